@@ -69,7 +69,7 @@ class Adapter:
         """(flow object, message number) if this hook is a message hook an intercept addon reacts to."""
         raise NotImplementedError
 
-    def edit(self, flow, n: int, new: int):
+    def edit(self, flow, n: int, new: int, body: bool = True):
         raise NotImplementedError
 
     def project(self, to: str, data: bytes) -> list[dict]:
@@ -100,7 +100,7 @@ class _Raw(Adapter):
     def wire(self, m):
         return ("c" if m["to"] == "s" else "s"), bd(m["n"])
 
-    def edit(self, flow, n, new):
+    def edit(self, flow, n, new, body=True):
         flow.messages[-1].content = bd(new)
 
 
@@ -163,7 +163,7 @@ class WsAdapter(Adapter):
         toks = scan(_BD, f.websocket.messages[-1].content) if f.websocket.messages else []
         return (f, toks[0] % EDIT if toks else 0)
 
-    def edit(self, flow, n, new):
+    def edit(self, flow, n, new, body=True):
         flow.websocket.messages[-1].content = bd(new)
 
     def project(self, to, data):
@@ -241,7 +241,7 @@ class DnsAdapter(Adapter):
         toks = scan(_BD, msg.questions[0].name.encode()) if msg and msg.questions else []
         return (f, toks[0] % EDIT if toks else 0)
 
-    def edit(self, flow, n, new):
+    def edit(self, flow, n, new, body=True):
         msg = flow.response if flow.response is not None else flow.request
         msg.questions[0].name = (bd(new) + b".example.com").decode()
 
@@ -277,12 +277,15 @@ class Http1Adapter(Adapter):
     def wire(self, m):
         n = m["n"]
         body = bd(n)
-        if self.drv.streamed(n):  # a streamed message is only observable to its end if it is chunked
+        if self.drv.bodiless(n):
+            framing = b"\r\n" if m["to"] == "s" else b"Content-Length: 0\r\n\r\n"
+        elif self.drv.streamed(n):  # a streamed message is only observable to its end if it is chunked
             framing = b"Transfer-Encoding: chunked\r\n\r\n%x\r\n" % len(body) + body + b"\r\n0\r\n\r\n"
         else:
             framing = b"Content-Length: %d\r\n\r\n" % len(body) + body
         if m["to"] == "s":
-            return "c", b"POST http://example.com/" + hd(n) + b" HTTP/1.1\r\nHost: example.com\r\n" + framing
+            method = b"GET" if self.drv.bodiless(n) else b"POST"
+            return "c", method + b" http://example.com/" + hd(n) + b" HTTP/1.1\r\nHost: example.com\r\n" + framing
         return "s", b"HTTP/1.1 200 OK\r\nx-tok: " + hd(n) + b"\r\n" + framing
 
     @staticmethod
@@ -313,16 +316,18 @@ class Http1Adapter(Adapter):
         heads = scan(_HD, data)
         if heads:
             self.last_head[to] = heads[-1] % EDIT
-        fin = [self.last_head[to]] if data.endswith(b"0\r\n\r\n") and self.last_head.get(to) else []
+        last_chunk = data == b"0\r\n\r\n" or data.endswith(b"\r\n0\r\n\r\n")  # (not "Content-Length: 0")
+        fin = [self.last_head[to]] if last_chunk and self.last_head.get(to) else []
         return [{"hd": heads, "bd": scan(_BD, data), "fin": fin}]
 
-    def edit(self, flow, n, new):
+    def edit(self, flow, n, new, body=True):
+        content = bd(new) if body else b""  # an edit may give a bodiless message a body or take the body away
         if flow.response is not None:
             flow.response.headers["x-tok"] = hd(new).decode()
-            flow.response.content = bd(new)
+            flow.response.content = content
         else:
             flow.request.path = "/" + hd(new).decode()
-            flow.request.content = bd(new)
+            flow.request.content = content
 
 
 class Http2Adapter(Http1Adapter):
@@ -360,14 +365,18 @@ class Http2Adapter(Http1Adapter):
             sid = c.get_next_available_stream_id()
             self.sid_of_flow[f] = sid
             self.flow_of_sid["c"][sid] = f
-            c.send_headers(sid, [(":method", "POST"), (":scheme", "http"), (":path", "/" + hd(n).decode()),
-                                 (":authority", "example.com")])
-            c.send_data(sid, bd(n), end_stream=True)
+            nobody = self.drv.bodiless(n)
+            c.send_headers(sid, [(":method", "GET" if nobody else "POST"), (":scheme", "http"),
+                                 (":path", "/" + hd(n).decode()), (":authority", "example.com")], end_stream=nobody)
+            if not nobody:
+                c.send_data(sid, bd(n), end_stream=True)
             return "c", c.data_to_send()
         s = self.peer["s"]
         sid = next(k for k, v in self.flow_of_sid["s"].items() if v == f)
-        s.send_headers(sid, [(":status", "200"), ("x-tok", hd(n).decode())])
-        s.send_data(sid, bd(n), end_stream=True)
+        nobody = self.drv.bodiless(n)
+        s.send_headers(sid, [(":status", "200"), ("x-tok", hd(n).decode())], end_stream=nobody)
+        if not nobody:
+            s.send_data(sid, bd(n), end_stream=True)
         return "s", s.data_to_send()
 
     def project(self, to, data):
@@ -442,10 +451,11 @@ class _Writer:
 class Driver:
     """One client connection of a real ProxyConnectionHandler."""
 
-    def __init__(self, proto: str, plan: dict, streams=()):
+    def __init__(self, proto: str, plan: dict, streams=(), nobody=()):
         self.proto = proto
         self.plan = plan  # message number (str) -> addon decision "pass" | "intercept" | "kill"
         self.streams = {int(x) for x in streams}  # http messages whose body the addon asks to stream
+        self.nobody = {int(x) for x in nobody}  # http messages that arrive as a head without body
         self.trace: list[dict] = [{"k": "cfg", "proto": proto}]
         self.peer_out: list[tuple[str, bytes]] = []
         self.flows: dict[int, object] = {}  # flow index -> Flow object (learned at its first message hook)
@@ -547,6 +557,9 @@ class Driver:
     def streamed(self, n: int) -> bool:
         return n in self.streams and self.proto in ("http1", "http2")
 
+    def bodiless(self, n: int) -> bool:
+        return n in self.nobody and self.proto in ("http1", "http2") and not self.streamed(n)
+
     def flow_of_message(self, n: int) -> int:
         return self.msgs.get(n, {}).get("f", 0)
 
@@ -642,7 +655,8 @@ class Driver:
             except Exception:
                 del self.msgs[m["n"]]
                 return False  # the peer cannot produce this message now (e.g. no stream to answer on)
-            self.trace.append({"k": "arrive", "n": m["n"], "f": m["f"], "to": m["to"], "str": self.streamed(m["n"])})
+            self.trace.append({"k": "arrive", "n": m["n"], "f": m["f"], "to": m["to"], "str": self.streamed(m["n"]),
+                               "body": not self.bodiless(m["n"])})
             await self.deliver(frm, data)
             await self.settle()
         elif kind == "resume":
@@ -666,8 +680,11 @@ class Driver:
             if flow is None or not held:  # (the body of a streamed message has left: there is nothing to edit)
                 return False
             n = held[0]
-            self.trace.append({"k": "edit", "n": n, "f": f, "id": n + EDIT})
-            self.adapter.edit(flow, n, n + EDIT)
+            body = bool(op[2]) if len(op) > 2 else True
+            if not body and self.proto not in ("http1", "http2"):
+                return False
+            self.trace.append({"k": "edit", "n": n, "f": f, "id": n + EDIT, "body": body})
+            self.adapter.edit(flow, n, n + EDIT, body)
         elif kind == "run":
             self.trace.append({"k": "run"})
             await self.settle()
@@ -684,11 +701,11 @@ class Driver:
         return list(self.trace)  # (tasks cancelled during loop teardown must not add to the observation)
 
 
-def run(proto: str, plan: dict, ops: list, choose=None, streams=()):
+def run(proto: str, plan: dict, ops: list, choose=None, streams=(), nobody=()):
     """Run one scenario; `choose(drv)` (optional) yields further ops from the driver's state (random driver)."""
     from vf import vloop
 
-    drv = Driver(proto, plan, streams)
+    drv = Driver(proto, plan, streams, nobody)
 
     async def main(loop):
         drv.build()
